@@ -124,13 +124,13 @@ def lean_lemmas(run):
         out = subprocess.run(["lean", src], capture_output=True, text=True, timeout=1500, cwd="/opt/veriftools/mathlib4")
         txt = out.stdout + out.stderr
         # accepted without errors, and the two theorems depend on no `sorry`
-        ok = out.returncode == 0 and "error" not in txt and "sorryAx" not in txt and txt.count("depends on axioms") == 2
+        ok = out.returncode == 0 and "error" not in txt and "sorryAx" not in txt and txt.count("depends on axioms") == 3
         detail = (out.stdout + out.stderr)[-1500:]
     except Exception as e:
         ok, detail = False, repr(e)
     ms = (time.time() - t0) * 1000
-    for name in ("predict_preserves_psd", "innovation_covariance_psd", "joseph_form", "update_preserves_psd"):
-        run.add_obligation(f"C09.lean.{name}", "proved" if ok else "undecided", "lean4+mathlib", ms / 4, detail=None if ok else detail, theory="math")
+    for name in ("predict_preserves_psd", "innovation_covariance_psd", "joseph_form", "update_preserves_psd", "posterior_le_prior"):
+        run.add_obligation(f"C09.lean.{name}", "proved" if ok else "undecided", "lean4+mathlib", ms / 5, detail=None if ok else detail, theory="math")
     if not ok:
         run.undecided.append("C09.lean.*")
         run.notes.append("Lean lemmas not checked: " + detail[-400:])
